@@ -36,7 +36,7 @@ var c02Defects = append(append([]string{}, prog.Defects...), "expired-presign", 
 
 type c02Case struct {
 	method, path, sub, defect, body string
-	admin                          bool
+	admin                           bool
 }
 
 func (c c02Case) String() string {
